@@ -67,4 +67,12 @@ theorem parse_sound (first more : Bytes) (p : Parsed) (h : parse first more = .o
       (∀ kv ∈ hs, LineOK kv) ∧ (p.std, p.custom) = foldHeaders hs ∧ PayloadOK p.std remaining more p.payload :=
   Http.parse_sound' first more p h
 
+/-- **The byte set of a header name in the source is the `tchar` of RFC 9110 5.6.2** (`"!" / "#" / "$" / "%" / "&" / "'" / "*" / "+" / "-" / "." /
+"^" / "_" / "`" / "|" / "~" / DIGIT / ALPHA`): the model's `isTchar` is evaluated from the table the translator regenerates from
+`Request::read` on every run, so a change of that set in the code changes this statement -/
+theorem tchar_is_rfc9110 : ∀ n : Fin 256, Ohkami.Http.isTchar (UInt8.ofNat n.val) =
+    (([33, 35, 36, 37, 38, 39, 42, 43, 45, 46, 94, 95, 96, 124, 126] : List Nat).contains n.val      -- ! # $ % & ' * + - . ^ _ ` | ~
+      || (48 ≤ n.val && n.val ≤ 57) || (65 ≤ n.val && n.val ≤ 90) || (97 ≤ n.val && n.val ≤ 122)) := by                 -- DIGIT / ALPHA
+  decide +kernel
+
 end C02
